@@ -261,6 +261,14 @@ def run_render(res, rng, w, home, specs, sizes, via):
                 ok_all = False
             last = (rank, value, size, rows[0])
             mult = multiplier_for(spec, shown)
+            if mult is not None and not spec[3] and not ("c" in spec[2] and "d" in spec[2]):
+                # no fixed unit: the unit shown is the largest one the size reaches (1 <= size / unit < base), e.g. 1000 bytes under
+                # the decimal flag are 1 KB, not 1000 B
+                base = 1000 if "d" in spec[2] else 1024
+                if (rank == 0 and size >= base) or (rank > 0 and not (mult <= size and (size < mult * base or rank == 6))):
+                    res.viol("format %r of %d -> %r: not the unit the size reaches (base %d)" % (st, size, rows[0], base), ctx)
+                    ok_all = False
+                    continue
             if mult is not None:
                 back = value * mult
                 tol = Fraction(mult, 2 * 10 ** ndec)
@@ -378,7 +386,9 @@ def main(chk):
              "default_file_size_format: rendering grammar, monotonicity in the size, and round trip within half a unit of the last digit. "
              "Non-trivial = literal selects a proper subset / specifier passed on every size; distinct by (literal, operator) and (path, specifier)."
              % nspec,
-        assumptions=["exact rendered strings are not modelled (rounding belongs to the humansize crate); only the three stated relations are",
+        assumptions=["exact rendered strings are not modelled (rounding belongs to the humansize crate); only the three stated relations are, "
+                     "plus what `base` means for a specifier without a fixed unit: the unit shown is the largest one the size reaches (1000 bytes "
+                     "under the decimal flag are 1 KB, 1023 bytes under the binary base are 1023 B)",
                      "the round trip is judged only for flag/unit combinations whose base the documentation defines (not c+d, d+kib, c+kb)",
                      "one format_size column per run, so a C15 value-cache defect cannot raise a C14 alarm"],
         require={"unit_op": 100, "specifiers_literal": 800 if not quick else 800, "multi_specifier_queries_checked": 20},
